@@ -397,6 +397,8 @@ func (cdfFile *CDRFile) Decoding(fileName string) {
 	if err != nil {
 		panic(err)
 	}
+	// what the value holds afterwards is this file: records of a file it decoded before do not stay
+	cdfFile.CdrList = nil
 
 	// fileLength := binary.BigEndian.Uint32(data[0:4])
 
